@@ -42,7 +42,7 @@ MC_CFG = "SPECIFICATION Spec\n" + CONSTS + "INVARIANTS " + INVARIANTS + "\nCHECK
 MC_VIEW_CFG = "SPECIFICATION Spec\n" + CONSTS + "VIEW View\nINVARIANTS " + STATE_INVARIANTS + "\nCHECK_DEADLOCK FALSE\n"
 GEN_CFG = "SPECIFICATION GenSpec\n" + CONSTS + "  GenLen = %(len)d\nINVARIANTS Emit " + INVARIANTS + "\nCHECK_DEADLOCK FALSE\n"
 TRACE_CFG = ("SPECIFICATION TraceSpec\n" + CONSTS % dict(ks="{FALSE, TRUE}", users='{"rw", "rws", "ro"}', cmds=100000,
-                                                        faults=100000, ns=100000, pool=8, fops="{}")
+                                                        faults=100000, ns=100000, pool=12, fops="{}")
              + "INVARIANTS " + INVARIANTS + " EndsClosed\nPOSTCONDITION TraceAccepted\nCHECK_DEADLOCK FALSE\n")
 
 ALL_USERS = '{"rw", "rws", "ro"}'
@@ -226,7 +226,7 @@ class Family:
     # ---------------------------------------------------------------- TLC runs
     def mc(self, cmds, fops, users=ALL_USERS, ns=1, coverage=False, view=False, timeout=900):
         ctx = self.ctx
-        cfg = (MC_VIEW_CFG if view else MC_CFG) % dict(ks=modes_of(self.pid), users=users, cmds=cmds, faults=1, ns=ns, pool=4, fops=fops)
+        cfg = (MC_VIEW_CFG if view else MC_CFG) % dict(ks=modes_of(self.pid), users=users, cmds=cmds, faults=1, ns=ns, pool=7, fops=fops)
         # TLC's -coverage cannot be used on this module: its cost-model builder inlines the nested operator
         # applications of the command layer and does not terminate in reasonable time/memory.  Action coverage is
         # counted from the emitted behaviours instead (see action_counts / generate()).
@@ -240,7 +240,7 @@ class Family:
     def generate(self, length, fops, sample=None, sim=None, depth=None, users=ALL_USERS, ns=1, faults=1, timeout=900):
         """bounded-exhaustive (sample = None or a keep-probability) or simulated behaviours"""
         ctx = self.ctx
-        cfg = GEN_CFG % dict(ks=modes_of(self.pid), users=users, cmds=length + 1, faults=faults, ns=ns, pool=4, fops=fops, len=length)
+        cfg = GEN_CFG % dict(ks=modes_of(self.pid), users=users, cmds=length + 1, faults=faults, ns=ns, pool=7, fops=fops, len=length)
         cases = []
         seen = set()
         rng = self.rng
